@@ -562,7 +562,8 @@ def programs(*, max_statements=4, max_leaves=6, max_offset=3, named_periods=Fals
     @st.composite
     def build(draw):
         n_stmt = draw(st.integers(1, max_statements))
-        pool_v = draw(st.lists(st.sampled_from(PLAIN * 3 + TRICKY + FUNCTION_LIKE), min_size=2, max_size=6, unique=True))
+        pool_v = draw(st.lists(st.sampled_from(PLAIN * 3 + TRICKY + FUNCTION_LIKE), min_size=2, max_size=max(6, max_statements + 2),
+                               unique=True))
         pool_p = draw(st.lists(st.sampled_from(PARAM_NAMES), max_size=2, unique=True))
         pool_e = draw(st.lists(st.sampled_from(ERROR_NAMES), max_size=2, unique=True))
         pool_e = [x for x in pool_e if x not in pool_v]
